@@ -20,20 +20,46 @@ fn owner(oracle_family: &str) -> &'static str {
 }
 
 impl WalletScenario {
+    /// A block range to scan: for the queue property a chunk from either end of any *suggested* range
+    /// (that is what the property quantifies over), otherwise any range of the known chain.
+    fn pick_range(&self, s: &mut WalletSim, ch: &mut Choices, max: u64) -> Option<(u32, usize)> {
+        let tip = s.chain.tip();
+        let base = s.cfg.base_height;
+        if self.prop == "C15" {
+            let sug = {
+                use zcash_client_backend::data_api::WalletRead;
+                let d = db!(s);
+                d.suggest_scan_ranges().unwrap_or_default()
+            };
+            let sug: Vec<(u32, u32)> = sug.iter().map(|r| (u32::from(r.block_range().start), u32::from(r.block_range().end).min(tip + 1))).filter(|(a, b)| a < b && *a > base).collect();
+            if sug.is_empty() {
+                return None;
+            }
+            let (a, b) = sug[ch.idx("sug.i", sug.len())];
+            let n = (1 + ch.below("limit", max.min((b - a) as u64)) as u32).min(b - a);
+            Some((if ch.chance("from_end", 1, 2) { b - n } else { a }, n as usize))
+        } else {
+            Some((base + 1 + ch.below("from", (tip - base) as u64) as u32, 1 + ch.below("limit", max) as usize))
+        }
+    }
+
     fn owns(&self, family: &str) -> bool {
         owner(family) == self.prop
     }
 
     fn after_op(&self, s: &mut WalletSim, ch: &mut Choices, ctx: &mut RunCtx, full: bool) -> SimResult {
         // every cheap oracle after every operation; only the owning property reports
-        if ctx.verbose { ctx.event("oracles: ledger"); }
+        let t = std::time::Instant::now();
         s.check_ledger(ctx, self.owns("ledger"))?;
-        if ctx.verbose { ctx.event("oracles: queue"); }
+        ctx.time("cpu_us_oracle_ledger", t.elapsed().as_micros() as u64);
+        let t = std::time::Instant::now();
         s.check_queue(ctx, self.owns("queue"))?;
-        if ctx.verbose { ctx.event("oracles: trees"); }
+        ctx.time("cpu_us_oracle_queue", t.elapsed().as_micros() as u64);
         let mut r = ch.fork_rng("trees.sample");
-        if full || r.below(if self.prop == "C06" { 2 } else { 5 }) == 0 {
+        if (full && (self.prop == "C06" || r.below(3) == 0)) || (!full && r.below(if self.prop == "C06" { 2 } else { 10 }) == 0) {
+            let t = std::time::Instant::now();
             s.check_trees(ctx, self.owns("trees"), full, &mut r)?;
+            ctx.time("cpu_us_oracle_trees", t.elapsed().as_micros() as u64);
         }
         Ok(())
     }
@@ -115,25 +141,9 @@ impl Scenario for WalletScenario {
                 2 => {
                     if s.dirty_fork.is_none() && tip > base {
                         ctx.op("scan_arbitrary");
-                        let (from, limit) = if self.prop == "C15" {
-                            // the queue property quantifies over scans of *suggested* ranges: any suggestion,
-                            // a chunk from either end
-                            let sug = {
-                                use zcash_client_backend::data_api::WalletRead;
-                                let d = db!(s);
-                                d.suggest_scan_ranges().unwrap_or_default()
-                            };
-                            let sug: Vec<(u32, u32)> = sug.iter().map(|r| (u32::from(r.block_range().start), u32::from(r.block_range().end).min(tip + 1))).filter(|(a, b)| a < b && *a > base).collect();
-                            if sug.is_empty() {
-                                ch.close();
-                                continue;
-                            }
-                            let (a, b) = sug[ch.idx("sug.i", sug.len())];
-                            let n = 1 + ch.below("limit", 40.min((b - a) as u64)) as u32;
-                            let n = n.min(b - a);
-                            (if ch.chance("from_end", 1, 2) { b - n } else { a }, n as usize)
-                        } else {
-                            (base + 1 + ch.below("from", (tip - base) as u64) as u32, 1 + ch.below("limit", 40) as usize)
+                        let Some((from, limit)) = self.pick_range(&mut s, ch, 40) else {
+                            ch.close();
+                            continue;
                         };
                         // the caller must not hand the wallet a range that overlaps blocks it holds from
                         // another branch; with no dirty fork any range of the current chain is legal
@@ -209,8 +219,10 @@ impl Scenario for WalletScenario {
                 _ => {
                     if tip > base {
                         ctx.op("scan_faulty");
-                        let from = base + 1 + ch.below("from", (tip - base) as u64) as u32;
-                        let limit = 2 + ch.below("limit", 30) as usize;
+                        let Some((from, limit)) = self.pick_range(&mut s, ch, 30) else {
+                            ch.close();
+                            continue;
+                        };
                         let fk = ch.below("fault", 3);
                         let mut src = SimSourceCfg::default();
                         let mut expect_fail = true;
@@ -223,19 +235,26 @@ impl Scenario for WalletScenario {
                             }
                             1 => {
                                 // the source still serves the abandoned branch at some heights
-                                let cands: Vec<&crate::simchain::SimBlock> = s.stale.iter().filter(|b| b.height >= from && (b.height as usize) < from as usize + limit && b.height <= tip).collect();
+                                // A block of the abandoned branch is detectably foreign only if its parent is another
+                                // abandoned block while the wallet is given / holds the current chain's block there, or if
+                                // the current chain's next block follows it in the same batch. (The first abandoned block
+                                // after the fork point connects to the common ancestor and cannot be told apart.)
+                                let first_stale = s.stale.iter().map(|b| b.height).min().unwrap_or(0);
+                                let end = from as usize + limit;
+                                let cands: Vec<&crate::simchain::SimBlock> = s
+                                    .stale
+                                    .iter()
+                                    .filter(|b| b.height >= from && (b.height as usize) < end && b.height <= tip)
+                                    .filter(|b| {
+                                        let parent_visible = b.height > first_stale && (b.height > from || s.scanned.contains(&(b.height - 1)));
+                                        let child_in_batch = ((b.height + 1) as usize) < end && b.height < tip;
+                                        parent_visible || child_in_batch
+                                    })
+                                    .collect();
                                 if s.dirty_fork.is_none() && !cands.is_empty() {
                                     let b = cands[ch.idx("stale.i", cands.len())];
-                                    // an abandoned block differs from the current one; served from the fork point up it
-                                    // connects to its predecessor, so choose one whose predecessor is NOT served stale
                                     src.overrides.insert(b.height, b.cb.clone());
-                                    // a stale block at the very start of the range cannot be detected by hash
-                                    // continuity within the batch when the wallet does not hold its predecessor
-                                    expect_fail = b.height > from || s.scanned.contains(&(b.height - 1));
-                                    if b.height == from && !s.scanned.contains(&(b.height - 1)) {
-                                        ch.close();
-                                        continue;
-                                    }
+                                    expect_fail = true;
                                     ctx.fault("blocksource_stale_fork");
                                 } else {
                                     ch.close();
@@ -302,6 +321,7 @@ impl Scenario for WalletScenario {
             // cannot happen with the operations above, kept as a guard
             return Ok(());
         }
+        let t_sync = std::time::Instant::now();
         let done = match s.sync_to_completion(ch, ctx, self.owns("liveness")) {
             Ok(d) => d,
             Err(v) if v.oracle == "rewind_within_pruning_depth_succeeds" || v.oracle == "sync_recovers_from_scan_error" => {
@@ -310,6 +330,7 @@ impl Scenario for WalletScenario {
             }
             Err(v) => return ctx.report(v),
         };
+        ctx.time("cpu_us_final_sync", t_sync.elapsed().as_micros() as u64);
         if done {
             let tip = s.chain.tip();
             let all = (s.cfg.base_height + 1..=tip).all(|h| s.scanned.contains(&h));
@@ -331,7 +352,11 @@ impl Scenario for WalletScenario {
                 }
             }
             self.after_op(&mut s, ch, ctx, true)?;
-            s.check_differential(ctx, self.owns("differential"))?;
+            let t = std::time::Instant::now();
+            if self.prop == "C01" || ch.chance("differential", 1, 3) {
+                s.check_differential(ctx, self.owns("differential"))?;
+            }
+            ctx.time("cpu_us_oracle_differential", t.elapsed().as_micros() as u64);
         }
         ctx.time("final_chain_height", (s.chain.tip() - s.cfg.base_height) as u64);
         Ok(())
